@@ -1,6 +1,7 @@
 package main
 
 import (
+	"sort"
 	"fmt"
 	"os"
 	"strings"
@@ -15,6 +16,15 @@ func debugDump(p *Prog, what string) {
 		}
 	}
 	switch {
+	case what == "census":
+		var names []string
+		for fn := range p.FuncDecl {
+			names = append(names, funcFullName(fn))
+		}
+		sort.Strings(names)
+		for _, n := range names {
+			fmt.Println(n)
+		}
 	case what == "codecs":
 		for _, ct := range p.Codecs {
 			fmt.Printf("%s ptr=%v generic=%v\n", ct.Name, ct.PtrRecv, ct.Generic)
